@@ -662,7 +662,10 @@ Qed.
 
 (* ---------------------------------------------------------------- one value against its type *)
 Section Decide.
+(* the engine's matcher decides the declared meaning of patterns *)
 Variable re_match : str -> str -> bool.
+Variable pat_sem : str -> str -> Prop.
+Hypothesis re_dec : forall p s, re_match p s = true <-> pat_sem p s.
 Local Notation str_rule_ok := (RulesSpecDec.str_rule_ok re_match).
 Local Notation key_ok := (RulesSpecDec.key_ok re_match).
 Local Notation ty_ok := (RulesSpecDec.ty_ok re_match).
@@ -670,25 +673,25 @@ Local Notation rule_semb := (RulesSpecDec.rule_semb re_match).
 Local Notation rule_objb := (RulesSpecDec.rule_objb re_match).
 
 
-Lemma str_rule_ok_spec r s : str_rule_ok r s = true <-> str_sem re_match r s.
+Lemma str_rule_ok_spec r s : str_rule_ok r s = true <-> str_sem pat_sem r s.
 Proof.
   unfold str_rule_ok, str_sem. rewrite andb_true_iff, within_spec. apply and_iff_compat_l.
   destruct (sr_pat r) as [p|]; split; intro H.
-  - intros p' Hp. inversion Hp; subst. exact H.
-  - apply H. reflexivity.
+  - intros p' Hp. inversion Hp; subst. apply re_dec. exact H.
+  - apply re_dec. apply H. reflexivity.
   - intros p' Hp. discriminate.
   - reflexivity.
 Qed.
 
 
 
-Lemma key_ok_spec f s : key_ok f s = true <-> key_sem re_match f s.
+Lemma key_ok_spec f s : key_ok f s = true <-> key_sem pat_sem f s.
 Proof.
-  destruct f; cbn [key_ok key_sem]; [tauto|tauto|apply uuid_regex_spec|apply id62_ok_spec].
+  destruct f; cbn [key_ok key_sem]; [tauto|apply re_dec|apply uuid_regex_spec|apply id62_ok_spec].
 Qed.
 
 
-Lemma ty_ok_spec env t v : ty_ok env t v = true <-> ty_sem re_match env t v.
+Lemma ty_ok_spec env t v : ty_ok env t v = true <-> ty_sem pat_sem env t v.
 Proof.
   destruct t as [k r l|sf r l|r|r l|r l|f e l|f64 fr l|r l|r l|tr l|od ts l|fl orl|orr l], v; cbn [ty_ok ty_sem];
     try tauto;
@@ -758,7 +761,7 @@ Proof.
   - assert (~ flag_set (ar_uniq r)) by (intro Hf; apply is_true_flag in Hf; congruence). tauto.
 Qed.
 
-Theorem rule_semb_spec env d fv : rule_semb env d fv = true <-> rule_sem re_match env d fv.
+Theorem rule_semb_spec env d fv : rule_semb env d fv = true <-> rule_sem pat_sem env d fv.
 Proof.
   unfold rule_semb, rule_sem. destruct (p_ty d) as [t|r sf t|r t], fv as [|v|vs|kvs]; try tauto.
   - rewrite negb_true_iff, <- not_true_iff_false, must_b_spec. tauto.
@@ -766,12 +769,12 @@ Proof.
     apply if_must. rewrite !orb_true_iff, negb_true_iff, <- not_true_iff_false, is_zero_spec, is_msg_ty_spec.
     unfold own_presence. tauto.
   - rewrite !andb_true_iff, <- and_assoc.
-    rewrite (forallb_Forall (ty_ok env t) (ty_sem re_match env t) vs (ty_ok_spec env t)).
+    rewrite (forallb_Forall (ty_ok env t) (ty_sem pat_sem env t) vs (ty_ok_spec env t)).
     rewrite (if_must d (nonempty vs) (vs <> []) (nonempty_spec vs)).
     rewrite (opt_rule r (fun r => arr_rule_ok r vs) (fun r => arr_sem r vs) (fun a => arr_rule_ok_spec a vs)).
     tauto.
   - rewrite !andb_true_iff, <- and_assoc.
-    rewrite (forallb_Forall (fun kv => ty_ok env t (snd kv)) (fun kv => ty_sem re_match env t (snd kv)) kvs
+    rewrite (forallb_Forall (fun kv => ty_ok env t (snd kv)) (fun kv => ty_sem pat_sem env t (snd kv)) kvs
                (fun kv => ty_ok_spec env t (snd kv))).
     rewrite (if_must d (nonempty kvs) (kvs <> []) (nonempty_spec kvs)).
     rewrite (opt_rule r (fun r => within_b (mr_min r) (mr_max r) (count kvs)) (fun r => map_sem r kvs)
@@ -780,7 +783,7 @@ Proof.
 Qed.
 
 
-Lemma rule_objb_spec env ds : forall fvs, rule_objb env ds fvs = true <-> rule_obj re_match env ds fvs.
+Lemma rule_objb_spec env ds : forall fvs, rule_objb env ds fvs = true <-> rule_obj pat_sem env ds fvs.
 Proof.
   unfold rule_obj. induction ds as [|d r IH]; intros [|v s]; cbn [rule_objb].
   - split; [constructor|reflexivity].
@@ -912,6 +915,8 @@ Definition is_absent (fv : fvalue) : bool := match fv with FAbsent => true | _ =
 Section C12.
 Variable re_ok : str -> bool.
 Variable re_match : str -> str -> bool.
+Variable pat_sem : str -> str -> Prop.
+Hypothesis re_dec : forall p s, re_match p s = true <-> pat_sem p s.
 (* the one pattern the compiler itself introduces: the regular expression engine
    compiles the published id62 pattern and decides it as the spec reads key:id62 *)
 Hypothesis re_id62_ok : re_ok Id62Gen.pattern_string = true.
@@ -1345,14 +1350,14 @@ Theorem c12_main env idx d o fv :
   evaluable d = true ->
   write_prop env idx d = Ok o ->
   fvalue_typed d fv = true ->
-  (validate_sem re_ok re_match (defined_numbers env) o fv = VAccept <-> rule_sem re_match env d fv) /\
-  (validate_sem re_ok re_match (defined_numbers env) o fv = VReject <-> ~ rule_sem re_match env d fv).
+  (validate_sem re_ok re_match (defined_numbers env) o fv = VAccept <-> rule_sem pat_sem env d fv) /\
+  (validate_sem re_ok re_match (defined_numbers env) o fv = VReject <-> ~ rule_sem pat_sem env d fv).
 Proof.
   intros Hwf Hkp Hev Hw Hty.
   rewrite (c12_verdict env idx d o fv Hwf Hkp Hw Hty).
   unfold evaluable in Hev. apply andb_true_iff in Hev as [Hp Hu]. apply negb_true_iff in Hu.
   rewrite Hp, Hu. cbn [negb andb].
-  rewrite <- (rule_semb_spec re_match env d fv).
+  rewrite <- (rule_semb_spec re_match pat_sem re_dec env d fv).
   destruct (rule_semb re_match env d fv); cbn; split; split; intro H; try congruence; try reflexivity;
     try (exfalso; apply H; reflexivity).
 Qed.
@@ -1406,8 +1411,8 @@ Theorem c12_object env ds : forall idx os fvs,
   forallb evaluable ds = true ->
   write_props_from env idx ds = Ok os ->
   typed_obj ds fvs = true ->
-  (validate_obj re_ok re_match (defined_numbers env) os fvs = VAccept <-> rule_obj re_match env ds fvs) /\
-  (validate_obj re_ok re_match (defined_numbers env) os fvs = VReject <-> ~ rule_obj re_match env ds fvs).
+  (validate_obj re_ok re_match (defined_numbers env) os fvs = VAccept <-> rule_obj pat_sem env ds fvs) /\
+  (validate_obj re_ok re_match (defined_numbers env) os fvs = VReject <-> ~ rule_obj pat_sem env ds fvs).
 Proof.
   unfold rule_obj.
   induction ds as [|d r IH]; intros idx os fvs Hwf Hkp Hev Hw Hty; cbn in Hw.
@@ -1440,16 +1445,16 @@ Proof.
           rewrite ?E1, ?E2; cbn; try reflexivity.
         -- exfalso. apply Hn. constructor; [apply Ha; exact E1|apply IHa; exact E2].
         -- exfalso. (* the tail cannot be an error *)
-           assert (Hd : Forall2 (rule_sem re_match env) r s \/ ~ Forall2 (rule_sem re_match env) r s).
+           assert (Hd : Forall2 (rule_sem pat_sem env) r s \/ ~ Forall2 (rule_sem pat_sem env) r s).
            { destruct (rule_objb re_match env r s) eqn:Eb.
-             - left. apply (rule_objb_spec re_match env r s). exact Eb.
-             - right. intro Hx. apply (rule_objb_spec re_match env r s) in Hx. congruence. }
+             - left. apply (rule_objb_spec re_match pat_sem re_dec env r s). exact Eb.
+             - right. intro Hx. apply (rule_objb_spec re_match pat_sem re_dec env r s) in Hx. congruence. }
            destruct Hd as [Hd|Hd]; [apply IHa in Hd|apply IHr in Hd]; congruence.
         -- exfalso.
-           assert (Hd : Forall2 (rule_sem re_match env) r s \/ ~ Forall2 (rule_sem re_match env) r s).
+           assert (Hd : Forall2 (rule_sem pat_sem env) r s \/ ~ Forall2 (rule_sem pat_sem env) r s).
            { destruct (rule_objb re_match env r s) eqn:Eb.
-             - left. apply (rule_objb_spec re_match env r s). exact Eb.
-             - right. intro Hx. apply (rule_objb_spec re_match env r s) in Hx. congruence. }
+             - left. apply (rule_objb_spec re_match pat_sem re_dec env r s). exact Eb.
+             - right. intro Hx. apply (rule_objb_spec re_match pat_sem re_dec env r s) in Hx. congruence. }
            destruct Hd as [Hd|Hd]; [apply IHa in Hd|apply IHr in Hd]; congruence.
 Qed.
 
@@ -1474,35 +1479,39 @@ End C12.
 (* ================================================================ layer 3: statements *)
 (* the laws a regular-expression engine must satisfy: it compiles the published
    id62 pattern and decides it as the specification reads key:id62 *)
-Definition engine_ok (re_ok : str -> bool) (re_match : str -> str -> bool) : Prop :=
+Definition engine_ok (re_ok : str -> bool) (re_match : str -> str -> bool) (pat_sem : str -> str -> Prop) : Prop :=
+  (* the matcher decides the declared meaning of patterns *)
+  (forall p s, re_match p s = true <-> pat_sem p s) /\
+  (* the published id62 pattern compiles and means "22 characters of 0-9 A-Z a-z" *)
   re_ok Id62Gen.pattern_string = true /\
-  forall s, re_match Id62Gen.pattern_string s = true <-> id62_text s.
+  (forall s, pat_sem Id62Gen.pattern_string s <-> id62_text s).
 
-Lemma engine_id62_bool re_ok re_match :
-  engine_ok re_ok re_match -> forall s, re_match Id62Gen.pattern_string s = id62_ok s.
-Proof. intros [_ H] s. apply eq_true_iff_eq. rewrite H, id62_ok_spec. reflexivity. Qed.
+Lemma engine_id62_bool re_ok re_match pat_sem :
+  engine_ok re_ok re_match pat_sem -> forall s, re_match Id62Gen.pattern_string s = id62_ok s.
+Proof. intros [Hd [_ H]] s. apply eq_true_iff_eq. rewrite Hd, H, id62_ok_spec. reflexivity. Qed.
 
-(* C20's class-count matcher is such an engine *)
-Lemma class_count_engine : engine_ok re_class_ok re_class_count.
+(* C20's class-count matcher is such an engine (its matching relation as the meaning) *)
+Lemma class_count_engine : engine_ok re_class_ok re_class_count (fun p s => re_class_count p s = true).
 Proof.
-  split.
+  split; [intros; reflexivity|]. split.
   - unfold re_class_ok. rewrite Id62Proofs.pattern_parsed. reflexivity.
   - intro s. rewrite class_count_id62. apply id62_ok_spec.
 Qed.
 
 (* the property, unrestricted *)
 Definition c12_statement (restrict : (str -> bool) -> prop -> bool) : Prop :=
-  forall re_ok re_match, engine_ok re_ok re_match ->
+  forall re_ok re_match pat_sem, engine_ok re_ok re_match pat_sem ->
   forall env idx d o fv,
     wf_env env = true -> key_placement_ok d = true -> restrict re_ok d = true ->
     write_prop env idx d = Ok o -> fvalue_typed d fv = true ->
-    (validate_sem re_ok re_match (defined_numbers env) o fv = VAccept <-> rule_sem re_match env d fv) /\
-    (validate_sem re_ok re_match (defined_numbers env) o fv = VReject <-> ~ rule_sem re_match env d fv).
+    (validate_sem re_ok re_match (defined_numbers env) o fv = VAccept <-> rule_sem pat_sem env d fv) /\
+    (validate_sem re_ok re_match (defined_numbers env) o fv = VReject <-> ~ rule_sem pat_sem env d fv).
 
 Theorem c12_partial : c12_statement evaluable.
 Proof.
-  intros re_ok re_match He env idx d o fv Hwf Hkp Hev Hw Hty.
-  exact (c12_main re_ok re_match (proj1 He) (engine_id62_bool re_ok re_match He) env idx d o fv Hwf Hkp Hev Hw Hty).
+  intros re_ok re_match pat_sem He env idx d o fv Hwf Hkp Hev Hw Hty.
+  exact (c12_main re_ok re_match pat_sem (proj1 He) (proj1 (proj2 He)) (engine_id62_bool re_ok re_match pat_sem He)
+           env idx d o fv Hwf Hkp Hev Hw Hty).
 Qed.
 
 (* witness 1: array of objects with uniqueItems = true, one item *)
@@ -1513,14 +1522,19 @@ Definition w_bad_pattern : prop :=
   P [97%N] false false (PSingle (TStr None (Some (SR (Some [91%N]) None None)) None)) [].
 
 Theorem c12_unique_messages_refuted :
-  forall re_ok re_match, exists o,
+  forall re_ok re_match pat_sem, exists o,
     write_prop (EE [] None []) 0 w_unique_obj = Ok o /\
     fvalue_typed w_unique_obj (FMany [VMsg 0]) = true /\
-    rule_sem re_match (EE [] None []) w_unique_obj (FMany [VMsg 0]) /\
+    rule_sem pat_sem (EE [] None []) w_unique_obj (FMany [VMsg 0]) /\
     validate_sem re_ok re_match (defined_numbers (EE [] None [])) o (FMany [VMsg 0]) = VError ERuntime.
 Proof.
-  intros re_ok re_match. eexists. split; [reflexivity|]. split; [reflexivity|]. split; [|reflexivity].
-  apply (rule_semb_spec re_match). reflexivity.
+  intros re_ok re_match pat_sem. eexists. split; [reflexivity|]. split; [reflexivity|]. split; [|reflexivity].
+  unfold rule_sem, w_unique_obj. cbn [p_ty]. split; [intros _; discriminate|]. split.
+  - intros r' Hr. inversion Hr; subst. split.
+    + split; intros m Hm; discriminate.
+    + intros _ i j a b Hij Ha Hb. destruct i as [|i]; [|destruct i; discriminate].
+      destruct j as [|j]; [lia|]. destruct j; discriminate.
+  - constructor; [exact I|constructor].
 Qed.
 
 Theorem c12_bad_pattern_refuted :
@@ -1536,8 +1550,8 @@ Qed.
 Theorem c12_full_refuted : ~ c12_statement (fun _ _ => true).
 Proof.
   intro H.
-  destruct (c12_unique_messages_refuted re_class_ok re_class_count) as [o [Hw [Hty [Hr Hv]]]].
-  destruct (H re_class_ok re_class_count class_count_engine (EE [] None []) 0%N w_unique_obj o (FMany [VMsg 0])
+  destruct (c12_unique_messages_refuted re_class_ok re_class_count (fun p s => re_class_count p s = true)) as [o [Hw [Hty [Hr Hv]]]].
+  destruct (H re_class_ok re_class_count _ class_count_engine (EE [] None []) 0%N w_unique_obj o (FMany [VMsg 0])
               eq_refl eq_refl eq_refl Hw Hty) as [Ha _].
   apply Ha in Hr. rewrite Hv in Hr. discriminate.
 Qed.
